@@ -11,6 +11,7 @@ pub mod c08;
 pub mod c11;
 pub mod c12;
 pub mod c14;
+pub mod c21;
 pub mod c27;
 pub mod c28;
 pub mod c30;
@@ -34,6 +35,8 @@ pub fn registry() -> &'static [Check] {
         Check { meta: &c11::META, run: c11::run, shards: (16, 16) },
         Check { meta: &c12::META, run: c12::run, shards: (16, 16) },
         Check { meta: &c14::META, run: c14::run, shards: (16, 16) },
+        Check { meta: &c21::META21, run: c21::run21, shards: (16, 16) },
+        Check { meta: &c21::META22, run: c21::run22, shards: (16, 16) },
         Check { meta: &c27::META27, run: c27::run27, shards: (8, 16) },
         Check { meta: &c27::META29, run: c27::run29, shards: (8, 16) },
         Check { meta: &c28::META, run: c28::run, shards: (8, 16) },
@@ -113,6 +116,9 @@ fn hprobe(path: &str) -> i32 {
         println!(">>> {}", block.replace('\n', "\n    "));
         match h.exec("default", block) {
             Ok(r) => {
+                if let Some(pt) = &r.proof_trees {
+                    println!("    PROOF_TREES {}", serde_json::to_string(pt).unwrap_or_default());
+                }
                 println!("    OK rows={:?} total={} truncated={} switched={:?} schema={:?}", crate::hnd::rows_str(&r), r.total_count, r.truncated, r.switched_kg, r.schema.iter().map(|c| c.name.clone()).collect::<Vec<_>>());
             }
             Err(e) => println!("    ERR {e}"),
